@@ -122,6 +122,7 @@ fn part_routes(bytes: &[u8], stats: &mut Stats) -> Verdict {
     // same position set up by FEN, with different counters
     let half = s.below(100) as u32;
     let full = 1 + s.below(200) as u32;
+    let (half, full) = gen::reachable_counters(&mut s, &end1, half, full);
     let bf = guarded("Board::new", || Board::new(&end1.fen(half, full)))?;
     let hf = hashes(&bf);
     let ep_comparable = end1.ep.is_none() || true;
